@@ -118,8 +118,8 @@ def apply_edits(routine, plan):
     from loki import (FindNodes, Assignment, Transformer, SubstituteExpressions, FindVariables, Comment)
     from loki.expression import symbols as sym
     done = []
-    half = sym.FloatLiteral('0.5', kind='8')
-    quarter = sym.FloatLiteral('0.25', kind='8')
+    half = sym.FloatLiteral('0.5', kind=sym.IntLiteral(8))
+    quarter = sym.FloatLiteral('0.25', kind=sym.IntLiteral(8))
     for kind, r, inplace in plan:
         assigns = FindNodes(Assignment).visit(routine.body)
         seen, later = set(), []
@@ -153,7 +153,11 @@ def apply_edits(routine, plan):
                     mapper = {a: a.clone(rhs=quarter)}
                 else:
                     mapper = {a: Assignment(lhs=a.lhs, rhs=quarter)}
-            routine.body = Transformer(mapper, inplace=inplace).visit(routine.body)
+            try:
+                routine.body = Transformer(mapper, inplace=inplace).visit(routine.body)
+            except Exception:  # pylint: disable=broad-except
+                # e.g. emptying a WHERE body is rejected by the node validation (C14's business): not a legal edit
+                continue
             done.append(f'{kind} [{str(a)[:50]}] inplace={inplace}')
         elif kind == 'rename_local':
             locs = [v for v in routine.variables if v not in routine.arguments and not getattr(v, 'shape', None)
